@@ -195,6 +195,20 @@ class SuperObj:
         self.self_ = self_
 
 
+class CoroutineObj:
+    """the result of calling an `async def` function: runs when awaited"""
+
+    def __init__(self, func, args, kwargs):
+        self.func = func
+        self.args = args
+        self.kwargs = kwargs
+        self.started = False
+        self.cancelled = False
+
+    def __repr__(self):
+        return "<coroutine %s>" % (self.func.qualname,)
+
+
 class NativeFn:
     """a model of a builtin / library function: fn(interp, args, kwargs)"""
 
@@ -803,9 +817,19 @@ class Interp:
             self.raise_("TypeError", "%s() got an unexpected keyword argument '%s'" % (func.name, list(kw)[0]))
         return loc
 
-    def call_function(self, func, args, kwargs, force_body=False):
+    def run_coroutine(self, co):
+        if co.started:
+            self.raise_("RuntimeError", "cannot reuse already awaited coroutine")
+        co.started = True
+        return self.call_function(co.func, co.args, co.kwargs, run_async=True)
+
+    def call_function(self, func, args, kwargs, force_body=False, run_async=False):
         if isinstance(func, NativeFn):
             return func.fn(self, list(args), kwargs)
+        if func.is_async and not run_async:
+            # validate the call like CPython does (TypeError at call time), run at await time
+            self.bind_args(func, args, kwargs)
+            return CoroutineObj(func, list(args), dict(kwargs))
         if not force_body:
             s = self.summaries.get(func.key)
             if s is not None:
@@ -815,7 +839,7 @@ class Interp:
                     self.summary_names = []
                 self.summary_names.append(func.key.split(":")[1])
                 try:
-                    return self.call_function(s, args, kwargs, force_body=True)
+                    return self.call_function(s, args, kwargs, force_body=True, run_async=True)
                 finally:
                     self.mode_stack.pop()
                     self.summary_names.pop()
@@ -1307,20 +1331,23 @@ class Interp:
         is_async = isinstance(st, ast.AsyncWith)
         enter = self.getattr_(mgr, "__aenter__" if is_async else "__enter__")
         exit_ = self.getattr_(mgr, "__aexit__" if is_async else "__exit__")
-        v = self.call(enter, [], {})
+        def aw(x):
+            return self.run_coroutine(x) if isinstance(x, CoroutineObj) else x
+
+        v = aw(self.call(enter, [], {}))
         if item.optional_vars is not None:
             self.assign(item.optional_vars, v, frame)
         try:
             self._with(st, frame, i + 1)
         except PyRaise as e:
-            sup = self.call(exit_, [e.exc.cls, e.exc, None], {})
+            sup = aw(self.call(exit_, [e.exc.cls, e.exc, None], {}))
             if not self.truth(sup):
                 raise
             return
         except (ReturnEx, BreakEx, ContinueEx):
-            self.call(exit_, [None, None, None], {})
+            aw(self.call(exit_, [None, None, None], {}))
             raise
-        self.call(exit_, [None, None, None], {})
+        aw(self.call(exit_, [None, None, None], {}))
 
     def s_Raise(self, st, frame):
         if st.exc is None:
@@ -1456,7 +1483,12 @@ class Interp:
         return self.getattr_(self.eval(e.value, frame), e.attr)
 
     def e_Await(self, e, frame):
-        return self.eval(e.value, frame)
+        v = self.eval(e.value, frame)
+        if isinstance(v, CoroutineObj):
+            return self.run_coroutine(v)
+        if hasattr(v, "sym_await"):
+            return v.sym_await(self)
+        return v
 
     def e_Lambda(self, e, frame):
         return self.make_function(e, frame, "<lambda>")
